@@ -76,7 +76,23 @@ Theorem C09_server_monitor_exec : forall (T C : Type) (tp : transport T response
   /\ h_stop v = true /\ v_bad v = false /\ (h_b1 v = true -> v09 v = true).
 Proof. exact ServerExecProofs.C09_server_monitor_exec. Qed.
 
+(* ---- part ioerr: the byte stream under the shipped serde transport fails (ReadFault.v) ---- *)
+From TarpcV Require Import ReadFault ReadFaultProofs.
+Theorem C09_ioerr_model_ok : forall ids kind, rf_ok ids kind (rf_model ids kind) = true.
+Proof. exact rf_model_ok. Qed.
+
+Theorem C09_ioerr_shape : forall ids kind tr, rf_ok ids kind tr = true ->
+  exists o i rest, tr = map IRecv ids ++ IErr o i :: rest.
+Proof. exact rf_ok_shape. Qed.
+
+Theorem C09_ioerr_clean_end_rejected : forall ids kind,
+  rf_ok ids kind (map IRecv ids ++ [IEnd]) = false.
+Proof. exact rf_clean_end_rejected. Qed.
+
 Print Assumptions C09_client_monitor.
 Print Assumptions C09_server_drop_aborts.
 Print Assumptions C09_server_monitor.
 Print Assumptions C09_server_monitor_exec.
+Print Assumptions C09_ioerr_model_ok.
+Print Assumptions C09_ioerr_shape.
+Print Assumptions C09_ioerr_clean_end_rejected.
